@@ -102,6 +102,32 @@ func famC10(g *Gen, o *Out, n int, thorough bool) {
 		srcs = append(srcs, indexlessV2(x, dp))
 		srcs = append(srcs, writeAll(roots, bs, false, carv2.UseDataPadding(uint64(dp)), carv2.UseIndexPadding(uint64(g.pick(40)))))
 		for si, src := range srcs {
+			// the payload through Reader.DataReader: one reader interrupted by other calls on the same Reader
+			// (Roots, Inspect, a second DataReader read to the end), and that second reader — each must
+			// deliver exactly the payload
+			if rd, err := carv2.NewReader(bytes.NewReader(src)); err == nil {
+				want := x
+				if si == len(srcs)-1 {
+					want = payloadOf(src)
+				}
+				res1, res2 := "r=err", "r=err"
+				if d1, err := rd.DataReader(); err == nil {
+					half := make([]byte, len(want)/2)
+					n1, _ := io.ReadFull(d1, half)
+					rd.Roots()
+					rd.Inspect(false)
+					var second []byte
+					if d2, err := rd.DataReader(); err == nil {
+						second, _ = io.ReadAll(d2)
+						res2 = "r=ok out=" + hexOr(second)
+					}
+					rest, _ := io.ReadAll(d1)
+					res1 = "r=ok out=" + hexOr(append(half[:n1], rest...))
+				}
+				o.Line(fmt.Sprintf("xform op=extract dst=reader1 x=%s in=%s", hex.EncodeToString(want), hex.EncodeToString(src)), res1)
+				o.Line(fmt.Sprintf("xform op=extract dst=reader2 x=%s in=%s", hex.EncodeToString(want), hex.EncodeToString(src)), res2)
+				o.Count("extract/datareader")
+			}
 			for _, dst := range []string{"absent", "larger", "same"} {
 				sp := tmpPath(fmt.Sprintf("c10-src-%d.car", si))
 				dpth := tmpPath(fmt.Sprintf("c10-dst-%d.car", si))
